@@ -89,6 +89,12 @@ SpaceOf(K) == CASE K = "coord" -> Coord [] K = "grouping" -> Grouping [] K = "pe
               [] K = "subset" -> Subset [] K = "adj" -> Adj [] K = "target" -> Target
               [] K = "stepsize" -> StepSize [] K = "steptok" -> StepTok [] K = "path" -> Path
 
+\* the validity rule of family K as a predicate (membership in the filtered sets above is slow in TLC)
+ValidOf(K, c) == CASE K = "coord" -> CoordValid(c) [] K = "grouping" -> GroupingValid(c) [] K = "permuter" -> PermuterValid(c)
+                   [] K = "subset" -> SubsetValid(c) [] K = "adj" -> AdjValid(c) [] K = "target" -> TargetValid(c)
+                   [] K = "stepsize" -> StepSizeValid(c) [] K = "steptok" -> StepTokValid(c) [] K = "path" -> PathValid(c)
+InSpace(K, c) == c \in RawOf(K) /\ ValidOf(K, c)
+
 --------------------------------------------------------------------------
 (* name grammar: token sequences *)
 \* FlattenSeq (SequencesExt) concatenates a sequence of sequences
@@ -133,7 +139,7 @@ SeqFields(cls) == {"cls"} \cup {FieldOf(SeqParts(cls)[i]) : i \in 1..Len(SeqPart
 \* q is a prompt-sequencer configuration of the parameter space / of the valid space
 IsSeqRaw(q) == /\ "cls" \in DOMAIN q /\ q.cls \in SeqClasses /\ DOMAIN q = SeqFields(q.cls)
                /\ \A i \in 1..Len(SeqParts(q.cls)) : q[FieldOf(SeqParts(q.cls)[i])] \in RawOf(SeqParts(q.cls)[i])
-SeqValid(q) == \A i \in 1..Len(SeqParts(q.cls)) : q[FieldOf(SeqParts(q.cls)[i])] \in SpaceOf(SeqParts(q.cls)[i])
+SeqValid(q) == \A i \in 1..Len(SeqParts(q.cls)) : InSpace(SeqParts(q.cls)[i], q[FieldOf(SeqParts(q.cls)[i])])
 SeqToks(q) == Elem(q.cls, [i \in 1..Len(SeqParts(q.cls)) |-> ToksOf(SeqParts(q.cls)[i], q[FieldOf(SeqParts(q.cls)[i])])])
 IsTokRaw(t) == DOMAIN t = {"cls", "prompt_sequencer"} /\ t.cls = "MazeTokenizerModular" /\ IsSeqRaw(t.prompt_sequencer)
 TokValid(t) == SeqValid(t.prompt_sequencer)
@@ -185,7 +191,8 @@ Init == fam \in Families
 Next == UNCHANGED fam
 DSpec == Init /\ [][Next]_fam
 
-CardInv      == Card(fam) = ExpectedCard(fam) /\ Cardinality(RawOf(fam)) = ExpectedRawCard(fam) /\ SpaceOf(fam) \subseteq RawOf(fam)
+CardInv      == /\ Card(fam) = ExpectedCard(fam) /\ Cardinality(RawOf(fam)) = ExpectedRawCard(fam) /\ SpaceOf(fam) \subseteq RawOf(fam)
+                /\ \A c \in RawOf(fam) : InSpace(fam, c) <=> c \in SpaceOf(fam)
 NameInjective == /\ Cardinality(NamesOf(fam)) = Card(fam)
                  /\ Cardinality({NameOf(fam, c) : c \in RawOf(fam)}) = Cardinality(RawOf(fam))     \* also over the raw space
 WellNested   == \A c \in RawOf(fam) : WellNestedToks(ToksOf(fam, c))
